@@ -519,6 +519,9 @@ impl Bdd {
     }
 
     fn generate_var_dependencies(&mut self) {
+        // rebuild from scratch, the table is only empty directly after an import
+        #[cfg(feature = "variablelist")]
+        self.var_deps.clear();
         #[cfg(feature = "variablelist")]
         self.nodes.iter().for_each(|node| {
             if node.var() >= Var::BOT {
